@@ -75,7 +75,7 @@ Patterns == <<S(<<40>>), S(<<91>>), S(<<42>>), S(<<97, 40>>), S(<<43>>), S(<<63>
 Subjects == <<Var(N_s), Var(N_u), Var(N_w), S(<<97, 98, 99>>)>>
 FName(i) == <<102>> \o NatDigits(i)
 Sizes == <<41, 42, 43, 44, 255, 256, 257>>
-WideSizes == <<499, 500, 501, 542, 543, 1042>>
+WideSizes(size) == IF size >= 2 THEN <<499, 500, 501, 542, 543, 1042>> ELSE <<501>>
 TotalOnEmpty == <<ECall(N_min, <<Var(N_ys)>>), ECall(N_max, <<Var(N_ys)>>), ECall(N_len, <<Var(N_ys)>>), ECall(N_string, <<Var(N_ys)>>),
                   ECall(N_min, <<ECall(N_diff, <<Var(N_xs), Var(N_xs)>>)>>), ECall(N_max, <<ECall(N_intersect, <<Var(N_xs), Var(N_ys)>>)>>),
                   ECall(N_min, <<ECall(N_union, <<Var(N_ys), Var(N_ys)>>)>>), ECall(N_len, <<EMap(<<>>)>>), ECall(N_len, <<EList(<<>>)>>),
@@ -92,7 +92,7 @@ SizeFamily(n) == <<
     EList(Rep(EList(Rep(EInt(1), 3)), n)),
     ECall(N_len, <<EList([i \in 1..n |-> S(NatDigits(i))])>>)           \* n distinct constants
   >>
-PartialProgs ==
+PartialProgs(size) ==
   Concat(Map1(ListsWithDefault, LAMBDA ld : Map1(IdxPool, LAMBDA i : ESub(ld[1], i))))
     \o Concat(Map1(ListsWithDefault, LAMBDA ld : Map1(IdxPool, LAMBDA i : ECall(N_get, <<ld[1], i, ld[2]>>))))
     \o Map1(StrKeys, LAMBDA k : ESub(Var(N_m), k))
@@ -107,10 +107,10 @@ PartialProgs ==
     \o Map1(NumPoolSmall, LAMBDA a : ECall(N_percent, <<a, Var(N_z)>>))
     \o Prod2(Patterns, Subjects, LAMBDA p, s : ECall(N_match, <<p, s>>))
     \o Map1(IdxPool, LAMBDA i : ECall(N_andand, <<Lt(i, ECall(N_len, <<Var(N_xs)>>)), Gt(ESub(Var(N_xs), i), EInt(0))>>))
-    \o Concat(Map1(Sizes, SizeFamily))
+    \o Concat(Map1(IF size >= 2 THEN Sizes ELSE <<42, 43, 256, 257>>, SizeFamily))
     \o TotalOnEmpty
     \* more live operands than the VM stack's growth step
-    \o Concat(Map1(WideSizes, LAMBDA n : <<ECall(N_len, <<EList(Rep(EInt(1), n))>>), ESub(EList(Rep(EInt(1), n)), EInt(n - 1)),
+    \o Concat(Map1(WideSizes(size), LAMBDA n : <<ECall(N_len, <<EList(Rep(EInt(1), n))>>), ESub(EList(Rep(EInt(1), n)), EInt(n - 1)),
                                               ECall(N_len, <<EMap([i \in 1..(n \div 2) |-> EPair(EInt(i), EInt(i))])>>),
                                               Add(EInt(1), ECall(N_len, <<EList(Rep(EInt(2), n))>>))>>))
     \* nesting depth (TLC's JSON reader stops at 255 nested brackets, i.e. tree depth ~120)
@@ -260,6 +260,46 @@ LazyProgs ==
          ECall(N_oror, <<ECall(N_ge, <<EInt(5), ECall(N_len, <<Var(N_xs)>>)>>), Gt(ESub(Var(N_xs), EInt(5)), EInt(0))>>),
          If(Gt(ECall(N_len, <<Var(N_ys)>>), EInt(0)), ESub(Var(N_ys), EInt(0)), Neg(EInt(1))),
          If(ECall(N_ne, <<Var(N_z), EInt(0)>>), ECall(N_percent, <<EInt(7), Var(N_z)>>), EInt(0))>>
+
+(* ------------------------------------------------------------------ C11 / C03: bytecode shapes *)
+Not(e) == ECall(N_bang, <<e>>)
+AndE(a, b) == ECall(N_andand, <<a, b>>)
+OrE(a, b) == ECall(N_oror, <<a, b>>)
+BVars == <<Var(N_b), Var(N_c)>>
+\* a conditional spanning more than 255 bytes: each element costs 3 bytes
+BigList(n) == EList(Rep(EInt(1), n))
+BcProgs ==
+  \* negations around and inside conditionals (branch ends, jump targets)
+  Prod2(BVars, BVars, LAMBDA a, b : Not(OrE(a, Not(b)))) \o Prod2(BVars, BVars, LAMBDA a, b : Not(AndE(a, Not(b))))
+    \o Prod2(BVars, BVars, LAMBDA a, b : Not(If(a, b, Not(b)))) \o Prod2(BVars, BVars, LAMBDA a, b : Not(If(a, Not(b), b)))
+    \o Prod2(BVars, BVars, LAMBDA a, b : If(Not(a), Not(b), Not(Not(b)))) \o Map1(BVars, LAMBDA a : Not(Not(a)))
+    \o Map1(BVars, LAMBDA a : Not(Not(Not(a)))) \o Prod2(BVars, BVars, LAMBDA a, b : Not(ECall(N_lif, <<a, b, Not(b)>>)))
+    \o Prod2(BVars, BVars, LAMBDA a, b : OrE(Not(a), Not(b))) \o Prod2(BVars, BVars, LAMBDA a, b : AndE(Not(a), Not(Not(b))))
+    \* an operand whose constant index is a given byte value, then an operator
+    \o Concat(Map1(<<1, 2, 54, 55, 56, 57, 255, 256, 257, 310, 311, 312>>, LAMBDA n :
+          <<ESub(EList(Rep(EBool(TRUE), n) \o <<Not(Var(N_c))>>), EInt(n)),
+            ESub(EList(Rep(EInt(7), n) \o <<Neg(Var(N_n))>>), EInt(n)),
+            ESub(EList(Rep(EInt(7), n) \o <<ECall(N_abs, <<Var(N_q)>>)>>), EInt(n)),
+            ECall(N_len, <<EList(Rep(S(<<97>>), n) \o <<Add(Var(N_s), Var(N_s))>>)>>)>>))
+    \* literals spelled like variables of the same program, repeated literals, repeated variables
+    \o <<ECall(N_eqeq, <<Var(N_s), S(N_s)>>), ECall(N_eqeq, <<S(N_s), Var(N_s)>>), Add(S(N_u), Add(Var(N_u), S(N_u))),
+         Add(ESub(EMap(<<EPair(S(N_n), Var(N_n)), EPair(S(N_p), Var(N_p))>>), S(N_n)), Var(N_n)),
+         If(Var(N_b), EInt(1), ECall(N_len, <<If(Var(N_b), S(N_b), S(N_c))>>)),
+         EList(<<Var(N_s), S(N_s), Var(N_s), S(N_s)>>), Add(Add(Var(N_n), Var(N_n)), Add(EInt(3), EInt(3))),
+         ECall(N_lif, <<Var(N_b), S(N_b), Var(N_s)>>), ECall(N_twice, <<Add(S(N_s), Var(N_s))>>)>>
+    \* jumps over more than 255 / 65535 bytes
+    \o Concat(Map1(<<84, 85, 86, 90, 200>>, LAMBDA n :
+          <<ECall(N_len, <<If(Var(N_b), BigList(n), BigList(2))>>), ECall(N_len, <<If(Var(N_c), BigList(n), BigList(3))>>),
+            ECall(N_len, <<If(Var(N_c), BigList(2), BigList(n))>>),
+            AndE(Gt(ECall(N_len, <<BigList(n)>>), EInt(0)), Var(N_b)), OrE(Var(N_c), Gt(ECall(N_len, <<BigList(n)>>), EInt(0)))>>))
+    \* deferred arguments inside deferred arguments, mixed with intrinsic conditionals
+    \o Prod2(BVars, BVars, LAMBDA a, b : ECall(N_lif, <<a, ECall(N_lif, <<b, T(1, EInt(1)), T(2, EInt(2))>>), ECall(N_twice, <<T(3, EInt(3))>>)>>))
+    \o Prod2(BVars, BVars, LAMBDA a, b : ECall(N_twice, <<If(a, ECall(N_second, <<T(1, EInt(1)), T(2, EInt(2))>>), ECall(N_never, <<T(3, b)>>))>>))
+    \o Prod2(BVars, BVars, LAMBDA a, b : ECall(N_second, <<AndE(a, T(1, b)), OrE(T(2, a), ECall(N_lif, <<b, a, T(3, b)>>))>>))
+    \o <<ECall(N_pair, <<EInt(7), EInt(9)>>), ESub(ECall(N_pair, <<EInt(7), EInt(9)>>), EInt(1)), ESub(ECall(N_pair, <<EInt(7), EInt(9)>>), EInt(0)),
+         Add(ESub(ECall(N_pair, <<T(1, EInt(7)), EInt(9)>>), EInt(0)), ESub(ECall(N_pair, <<EInt(3), EInt(4)>>), EInt(1))),
+         ECall(N_len, <<ECall(N_pair, <<Add(EInt(1), EInt(2)), ECall(N_len, <<Var(N_xs)>>)>>)>>),
+         EList(<<ECall(N_pair, <<EInt(1), EInt(2)>>), ECall(N_pair, <<EInt(3), EInt(4)>>)>>)>>
 
 (* ------------------------------------------------------------------ C05: registration orders *)
 GArgs == <<Var(N_n), Var(N_s), Var(N_xs), Var(N_ss), Var(N_ys), EList(<<>>), EList(<<EInt(1)>>), Var(N_ob), Var(N_m), Var(N_mx),
